@@ -47,6 +47,17 @@ class C02(WigBedProp):
                 lines.append(f"Q iv {nm} 0 {sizes[nm]}")
             lines += bbgen.gen_queries(r, names, sizes, data, ["iv"], 2, ips=o["ips"])
             out.append(CaseT(f"b{k}", "bed", [], lines, self.common_tags(o, names, data, tags)))
+        # items_per_slot beyond what a section's 16-bit item count can hold, with more entries than that on a chromosome (D22)
+        for k in range(1):
+            r = rng.fork(f"ips_over_u16_{k}")
+            n = 65536 + r.range(5, 3000)
+            data = {"chr1": [(2 * i, 2 * i + 1, "") for i in range(n)], "chr2": [(3, 9, "x\ty")]}
+            sizes = {"chr1": 2 * n + 10, "chr2": 50}
+            o = bbgen.gen_options(r, tier)
+            o.update({"ips": r.choice([65536, 70000, 100000]), "zooms": "none", "src": "iter", "sort": "all"})
+            lines = [bbgen.opt_line(o)] + bbgen.bed_lines(["chr1", "chr2"], sizes, data)
+            lines += [f"Q iv chr1 0 {sizes['chr1']}", "Q iv chr2 0 50", f"Q iv chr1 {2 * 65535 - 4} {2 * 65535 + 6}"]
+            out.append(CaseT(f"ipsbig{k}", "bed", [], lines, {"items_per_slot_over_u16", "multi_chrom", "multi_section", "nt"}))
         return out
 
     def oracle(self, case, il):
